@@ -273,7 +273,7 @@ class Ctx(object):
             self.proof_ok = False
             self.proof_log += 'forbidden declarations:\n' + '\n'.join(hits) + '\n'
         targets = ['%s/%s' % (d, f[:-2] + '.vo') for f in files if f not in ('Property.v', 'Refuted.v')]
-        rc, out, dt = coq_make(targets)
+        rc, out, dt = coq_make(['Lib/Harness.vo'] + targets)
         self.extra['coq_make_s'] = round(dt, 1)
         if rc != 0:
             self.proof_ok = False
